@@ -56,6 +56,17 @@ Theorem C03_str_input_any_fuel : forall (E: senv) (P: prims) (n: nat) (t: sty) (
 Proof. intros E P n t s. exact (uk_str_ref E P n t true s). Qed.
 Print Assumptions C03_str_input_any_fuel.
 
+(* ... and the fuel [List.length E] is enough when the NamedTuple classes are ranked: [rk] bounds, for every
+   NamedTuple class, the number of NamedTuple classes a str can still descend through from its fields
+   ([need]: through list / set / tuple / Optional / NamedTuple positions; dataclasses, dicts and TypedDicts
+   stop the descent).  Then no RecursionError comes out. *)
+Theorem C03_str_fuel_sufficient : forall (E: senv) (P: prims) (rk: String.string -> nat),
+  (forall c k, sfind E KNamed c = Some k -> forall f, In f k.(sc_fields) -> (need rk f.(sf_ty) <= rk c)%nat) ->
+  forall (t: sty) (s: String.string), (need rk t <= List.length E)%nat ->
+    uk_str E P (List.length E) (cu true t) s <> Exn XRecursion.
+Proof. intros E P rk HR t s Hn. exact (uk_str_no_recursion E P rk HR t true s Hn). Qed.
+Print Assumptions C03_str_fuel_sufficient.
+
 (* non-vacuity: NT(a: int, b: Tuple[int, int] = (0, 0), c: int = 7) and
    TD(o: NotRequired[int], r: List[int]) *)
 Definition ntE : senv :=
@@ -89,6 +100,15 @@ Example C03_named_nested_error :
   dec (SNamed "NT") (VList [VInt 1; VList [VInt 5]; VInt 9]) = Exn XIndexError /\
   dec (SNamed "NT") (VStr "123") = Exn XIndexError.
 Proof. split; vm_compute; reflexivity. Qed.
+
+(* the example table is ranked by the constant 0 (NT's fields reach no NamedTuple) *)
+Example C03_example_ranked :
+  forall c k, sfind ntE KNamed c = Some k -> forall f, In f k.(sc_fields) -> (need (fun _ => O) f.(sf_ty) <= O)%nat.
+Proof.
+  intros c k H f Hf. cbn [ntE sfind sc_kind ckind_eqb andb sc_name] in H.
+  destruct (String.eqb "NT" c); [|discriminate H]. inversion H; subst k. cbn [sc_fields] in Hf.
+  destruct Hf as [Hf|[Hf|[Hf|[]]]]; subst f; cbn; repeat constructor.
+Qed.
 
 Example C03_typed_optional_key :
   dec (STyped "TD") (VDict [(VStr "zz", VNone); (VStr "r", VList [VStr "2"])]) = Ok (VDict [(VStr "r", VList [VInt 2])]) /\
